@@ -210,7 +210,7 @@ def plan_cr(tier, seed, props):
 
 def plan_api(tier, seed, props):
     q = tier == "quick"
-    n = 3 if q else 10
+    n = 3 if q else 6
     return [item("nestarr_2", NONE, max=n * 2), item("scalarr_4_3", NONE, max=n), item("obj_2", MERGE, max=n * 2), item("deepobj", MERGE, max=n),
             dict(family="mergenull", opts=MERGE, frac=1.0, void=False, nf=False, max=n * 6),
             dict(family="mergedocs", opts=MERGE, frac=1.0, void=False, nf=False, max=n * 3), dict(family="obj_2", opts=MERGE, frac=1.0, void=False, nf=False, max=n),
@@ -331,7 +331,7 @@ CHECKS = {
                      "a structurally valid hunk with arbitrary path built from fields and through text, an op sequence, or a seeded byte "
                      "mutation of a valid text; every accepted diff is applied to documents of every kind"),
     "C15": dict(stages=[Stage("api", "TraceApi", plan_api, extra={"histories": "HIST"}),
-                        Stage("api", "TraceApi", plan_api_ptr, table="pointer", extra={"histories": "HIST"})], design=["MCApi"],
+                        Stage("api", "TraceApi", plan_api_ptr, table="pointer", extra={"histories": "histories_2"})], design=["MCApi"],
                 rule="session = one history of read-only calls (every sequence over 10 calls up to the tier's length, from Api.tla) on shared "
                      "live values of one seed (a, b, options), repeated in-process and compared with a reference process; non-trivial = history length >= 2"),
     "C14": dict(stages=[Stage("proc", "TraceCli", lambda t, s, p: [], bins=True, extra={"frac": "FRAC"}),
